@@ -81,17 +81,52 @@ pub trait PathSyntax {
 
     fn read_number(&mut self) -> Result<f32> {
         self.check_not_end()?;
+        // SVG number: sign? (digit+ ('.' digit*)? | '.' digit+) (('e' | 'E') sign? digit+)?
+        // A number ends where this grammar ends, so "10-20" and ".5.5" are two numbers each.
         let mut s = String::new();
-        while let Some(ch) = self.current() {
-            if ch.is_ascii_digit() || ch == '.' || ch == '-' {
+        if let Some(ch @ ('+' | '-')) = self.current() {
+            s.push(ch);
+            self.advance();
+        }
+        while let Some(ch) = self.current().filter(|c| c.is_ascii_digit()) {
+            s.push(ch);
+            self.advance();
+        }
+        if self.current() == Some('.') {
+            s.push('.');
+            self.advance();
+            while let Some(ch) = self.current().filter(|c| c.is_ascii_digit()) {
                 s.push(ch);
                 self.advance();
-            } else {
-                break;
+            }
+        }
+        if let Some(ch @ ('e' | 'E')) = self.current() {
+            s.push(ch);
+            self.advance();
+            if let Some(ch @ ('+' | '-')) = self.current() {
+                s.push(ch);
+                self.advance();
+            }
+            while let Some(ch) = self.current().filter(|c| c.is_ascii_digit()) {
+                s.push(ch);
+                self.advance();
             }
         }
         self.skip_wsp_comma();
         Ok(s.parse()?)
+    }
+
+    /// An arc flag is a single '0' or '1'; flags may be written without separators ("01").
+    fn read_flag(&mut self) -> Result<bool> {
+        self.check_not_end()?;
+        let flag = match self.current() {
+            Some('0') => false,
+            Some('1') => true,
+            _ => return Err(SvgdxError::ParseError("Invalid arc flag".to_string())),
+        };
+        self.advance();
+        self.skip_wsp_comma();
+        Ok(flag)
     }
 
     fn read_coord(&mut self) -> Result<(f32, f32)> {
@@ -239,8 +274,8 @@ impl PathParser {
                 // "(rx ry x-axis-rotation large-arc-flag sweep-flag x y)+"
                 let _rxy = self.tokens.read_coord()?;
                 let _xar = self.tokens.read_number()?;
-                let _laf = self.tokens.read_number()?;
-                let _sf = self.tokens.read_number()?;
+                let _laf = self.tokens.read_flag()?;
+                let _sf = self.tokens.read_flag()?;
                 let xy = self.tokens.read_coord()?;
                 self.update_position(xy);
             }
@@ -248,8 +283,8 @@ impl PathParser {
                 // "(rx ry x-axis-rotation large-arc-flag sweep-flag x y)+"
                 let _rxy = self.tokens.read_coord()?;
                 let _xar = self.tokens.read_number()?;
-                let _laf = self.tokens.read_number()?;
-                let _sf = self.tokens.read_number()?;
+                let _laf = self.tokens.read_flag()?;
+                let _sf = self.tokens.read_flag()?;
                 let (dx, dy) = self.tokens.read_coord()?;
                 let (cpx, cpy) = self.position.unwrap_or((0., 0.));
                 self.update_position((cpx + dx, cpy + dy));
